@@ -18,6 +18,8 @@ enum Ev {
     Begin { op: usize, thread: ThreadId, seq: u64, blocking_ok: bool },
     End { op: usize, seq: u64 },
     Destruct { thread: ThreadId, seq: u64, blocking_ok: bool },
+    DropBegin { seq: u64 },
+    DropEnd { seq: u64 },
 }
 
 #[derive(Default)]
@@ -65,7 +67,7 @@ struct Gate {
 impl Gate {
     fn wait(&self) {
         let mut g = self.open.lock().unwrap();
-        let deadline = std::time::Instant::now() + Duration::from_secs(20);
+        let deadline = std::time::Instant::now() + Duration::from_secs(10);
         while !*g {
             let now = std::time::Instant::now();
             if now >= deadline {
@@ -85,6 +87,8 @@ enum Op {
     Complete,
     Panic,
     CancelRunning,
+    /// like CancelRunning, but the closure panics once it is released
+    CancelRunningPanic,
     CancelQueued,
     Pause,
 }
@@ -108,7 +112,8 @@ pub fn history(seed: u64, idx: u64) -> Case {
         .map(|_| match rng.below(10) {
             0..=3 => Op::Complete,
             4..=5 => Op::Panic,
-            6..=7 => Op::CancelRunning,
+            6 => Op::CancelRunning,
+            7 => Op::CancelRunningPanic,
             8 => Op::CancelQueued,
             _ => Op::Pause,
         })
@@ -185,10 +190,14 @@ pub fn history(seed: u64, idx: u64) -> Case {
                         poisoned_expected.store(true, Ordering::SeqCst);
                         results.lock().unwrap().push(format!("{}:panic:{}:poisoned={}", i, s, w.is_mutex_poisoned()));
                     }
-                    Op::CancelRunning => {
+                    Op::CancelRunning | Op::CancelRunningPanic => {
+                        let panics = *op == Op::CancelRunningPanic;
                         let gate = Arc::new(Gate::default());
                         gates.push(gate.clone());
                         let started = Arc::new(AtomicBool::new(false));
+                        let gate2 = gate.clone();
+                        let disarm = Arc::new(AtomicBool::new(false));
+                        let disarm2 = disarm.clone();
                         let (w2, l, st) = (w.clone(), log.clone(), started.clone());
                         let h = tokio::spawn(async move {
                             l.note_async();
@@ -200,6 +209,9 @@ pub fn history(seed: u64, idx: u64) -> Case {
                                     let _g = EndGuard { log: l3.clone(), op: i };
                                     st.store(true, Ordering::SeqCst);
                                     gate.wait();
+                                    if panics && !disarm2.load(Ordering::SeqCst) {
+                                        std::panic::panic_any(InjectedPanic(i as u32));
+                                    }
                                 })
                                 .await;
                         });
@@ -213,7 +225,18 @@ pub fn history(seed: u64, idx: u64) -> Case {
                         h.abort();
                         let _ = h.await;
                         log.note_async();
-                        results.lock().unwrap().push(format!("{}:cancel_running:started={}", i, started.load(Ordering::SeqCst)));
+                        if panics && started.load(Ordering::SeqCst) {
+                            // let it panic now and wait until it is over: a later closure on the same
+                            // value can only start once the panicking one has let go of the mutex
+                            gate2.release();
+                            let _ = w.interact(|_| ()).await;
+                            log.note_async();
+                            results.lock().unwrap().push(format!("{}:panic:panic:poisoned={}", i, w.is_mutex_poisoned()));
+                        } else {
+                            // the closure has not started (yet): it must not panic at some unknown later time
+                            disarm.store(true, Ordering::SeqCst);
+                            results.lock().unwrap().push(format!("{}:cancel_running:started={}", i, started.load(Ordering::SeqCst)));
+                        }
                     }
                     Op::CancelQueued => {
                         // saturate the blocking pool, queue an interact behind it, cancel it
@@ -258,7 +281,11 @@ pub fn history(seed: u64, idx: u64) -> Case {
             let poisoned_now = w.is_mutex_poisoned();
             results.lock().unwrap().push(format!("final:poisoned={}", poisoned_now));
             *dropper.lock().unwrap() = Some(std::thread::current().id());
+            let sq = log.next();
+            log.push(Ev::DropBegin { seq: sq });
             drop(w); // SyncWrapper::drop runs here, on an async worker thread
+            let sq = log.next();
+            log.push(Ev::DropEnd { seq: sq });
             tokio::time::sleep(Duration::from_micros(300)).await;
             for g in &gates {
                 g.release();
@@ -306,7 +333,33 @@ pub fn history(seed: u64, idx: u64) -> Case {
                     );
                 }
             }
-            Ev::End { .. } => {}
+            Ev::End { .. } | Ev::DropBegin { .. } | Ev::DropEnd { .. } => {}
+        }
+    }
+    // dropping the wrapper must not wait for a closure that is still running: the closures of
+    // cancelled-while-running interactions are parked on gates which open only after drop() returned
+    let drop_begin = events.iter().find_map(|e| if let Ev::DropBegin { seq } = e { Some(*seq) } else { None });
+    let drop_end = events.iter().find_map(|e| if let Ev::DropEnd { seq } = e { Some(*seq) } else { None });
+    if let (Some(db), Some(de), false) = (drop_begin, drop_end, release_before_drop) {
+        for e in &events {
+            if let Ev::Begin { op, seq, .. } = e {
+                if !matches!(ops.get(*op), Some(Op::CancelRunning) | Some(Op::CancelRunningPanic)) {
+                    continue;
+                }
+                // a later Complete / Panic operation opens all gates: only closures after the last
+                // such operation are still parked when the wrapper is dropped
+                let last_release = ops.iter().rposition(|o| matches!(o, Op::Complete | Op::Panic));
+                if last_release.map(|l| *op < l).unwrap_or(false) {
+                    continue;
+                }
+                let end = events.iter().find_map(|x| match x {
+                    Ev::End { op: o, seq } if o == op => Some(*seq),
+                    _ => None,
+                });
+                if *seq < db && end.map(|es| es > db && es < de).unwrap_or(false) {
+                    v("drop_blocked_async_thread", format!("dropping the wrapper (seq {}..{}) returned only after the still-running closure of op {} had ended (seq {:?}): the dropping thread waited for it", db, de, op, end));
+                }
+            }
         }
     }
     if destructs.len() != 1 {
@@ -363,7 +416,7 @@ pub fn history(seed: u64, idx: u64) -> Case {
     for r in &results {
         h.str(r);
     }
-    let nontrivial = ops.iter().any(|o| matches!(o, Op::Panic | Op::CancelRunning | Op::CancelQueued));
+    let nontrivial = ops.iter().any(|o| matches!(o, Op::Panic | Op::CancelRunning | Op::CancelRunningPanic | Op::CancelQueued));
     let mut counters = BTreeMap::new();
     for o in &ops {
         *counters.entry(format!("op:{:?}", o)).or_insert(0) += 1;
